@@ -18,8 +18,9 @@ LEVEL_TEXT = ("Theorems in coq/Props/C15.v over Model/Multiply.v (multiplication
               "are refused without change. Tie: Gfa.multiply is run on generated GFA1 graphs x segments x factors x policies x "
               "given/automatic names and its outcome and the full observation of the graph are compared with the model inside "
               "Coq. Without distribution every line that is not the multiplied segment or one of its dovetails/containments is "
-              "in the graph afterwards exactly as it was (Proofs/FrameP.v). PARTIAL: 'every copy carries every edge', and the "
-              "untouched rest under distribution, are decided per generated case by the "
+              "in the graph afterwards exactly as it was (Proofs/FrameP.v), and the records afterwards are the divided ones followed, "
+              "per copy name, by the segment and each edge with the name substituted (Proofs/MultiplyRecordsP.v). PARTIAL: copies and "
+              "untouched rest under distribution are decided per generated case by the "
               "independent oracle and by correspondence with the model, not proved for the model. Oracle: expected document "
               "recomputed from the text (GFA1 and GFA2 with unnamed edges).")
 RULE = ("graphs of 2-6 segments with count tags on segments and edges, parallel links, containments, paths, names ending in *n, "
